@@ -1,7 +1,9 @@
 package props
 
 import (
+	"bytes"
 	"fmt"
+	"runtime"
 	"reflect"
 	"sort"
 	"testing"
@@ -61,6 +63,36 @@ func wireCheck(v interface{}, nm map[string]string) (bytes []byte, got *av.V, de
 		return again, got2, dec, fmt.Errorf("second one-shot message of a reused Serializer denotes a different value\n want: %s\n  got: %s", clipDiff(w, g2), clipDiff(g2, w))
 	}
 	return bytes, got, dec, nil
+}
+
+// gcWriter collects garbage between writes: whatever the encoder remembers about values
+// already written (addresses in its ref table) must stay valid across a collection.
+type gcWriter struct {
+	buf   bytes.Buffer
+	calls int
+	every int
+}
+
+func (w *gcWriter) Write(p []byte) (int, error) {
+	w.calls++
+	if w.calls%w.every == 0 {
+		runtime.GC()
+	}
+	return w.buf.Write(p)
+}
+
+// gcCheck: the stream written while the collector runs between writes must be the stream
+// written without it.
+func gcCheck(v interface{}, nm map[string]string, plain []byte) error {
+	w := &gcWriter{every: 3 + len(plain)/60} // a dozen or so collections per message
+	var err error
+	if pv, st := guard(func() { err = hessian.NewEncoder(w, nm).WriteObject(v) }); pv != nil || err != nil {
+		return fmt.Errorf("encode with a collecting writer failed: %v %v [%s]", err, pv, st)
+	}
+	if msg := sameStream(plain, w.buf.Bytes()); msg != "" {
+		return fmt.Errorf("the stream differs when garbage is collected between writes: %s", msg)
+	}
+	return nil
 }
 
 // clipDiff shows a around the first difference with b.
@@ -192,6 +224,10 @@ func TestC02(t *testing.T) {
 			}
 		}
 		b, got, dec, err := wireCheck(v, nmCopy)
+		if err == nil && len(b) > 200 && len(b) < 4000 && rapid.IntRange(0, 99).Draw(rt, "gcStress") == 0 {
+			err = gcCheck(v, copyNames(nm), b)
+			r.Label("gc-between-writes")
+		}
 		r.Label("names:" + mode)
 		r.Label("shape:" + shape[:indexOrLen(shape, ':')])
 		r.ExcludedMap(g.Avoided)
